@@ -619,3 +619,34 @@ Definition kmon_fill (c : kcase) : bool := fill_ok c.
 
 Definition kdiffs (l : list kcase) := bad_idx kdiff_case l.
 Definition kmons (l : list kcase) := mon_idx [kmon_input_room; kmon_token_cap; kmon_fill] l.
+
+(* ------------------------------------------------------------------ what the pipeline configures *)
+
+(* one real crawl (controler.Start with --workers w); the reactor was sampled while it ran *)
+Record pcase := PC {
+  p_workers : nat;       (* --workers *)
+  p_tokcap : nat;        (* cap(tokenPool) seen by the watcher *)
+  p_maxtracked : nat;    (* most state-table entries at any sample *)
+  p_inputs : nat;        (* seeds given on the command line *)
+  p_rows : nat;          (* rows of the local queue *)
+  p_finished : nat;      (* seeds the child saw finished *)
+  p_samples : nat;
+  p_complete : bool }.   (* the crawl ran to its end and the watcher saw the reactor *)
+
+(* the model instantiated with n = --workers: capacity n, and (C12_accounting) never more than n
+   tracked seeds *)
+Definition pdiff_case (c : pcase) : bool :=
+  p_complete c
+  && negb ((p_tokcap c =? cap (init (p_workers c) (p_workers c))) && (p_maxtracked c <=? cap (init (p_workers c) (p_workers c)))
+           && (p_finished c =? p_inputs c + p_rows c)).
+
+(* monitor 0 - the pipeline gives the reactor exactly --workers tokens *)
+Definition pmon_tokens_are_workers (c : pcase) : bool :=
+  if p_complete c then p_tokcap c =? p_workers c else true.
+(* monitor 1 - at most --workers seeds in flight, at every sample *)
+Definition pmon_bounded (c : pcase) : bool := p_maxtracked c <=? p_workers c.
+(* monitor 2 - the crawl completed (the watcher needs something to look at) *)
+Definition pmon_complete (c : pcase) : bool := p_complete c.
+
+Definition pdiffs (l : list pcase) := bad_idx pdiff_case l.
+Definition pmons (l : list pcase) := mon_idx [pmon_tokens_are_workers; pmon_bounded; pmon_complete] l.
